@@ -569,6 +569,7 @@ func main() {
 	}
 	// hook files
 	replace[filepath.Join(*repo, "pkg/collector/zz_verif_hooks.go")] = filepath.Join(*hooks, "collector_hooks.go")
+	replace[filepath.Join(*repo, "pkg/collector/zz_verif_hooks_shim.go")] = filepath.Join(*hooks, "collector_hooks_shim.go")
 	replace[filepath.Join(*repo, "pkg/exporter/zz_verif_hooks.go")] = filepath.Join(*hooks, "exporter_hooks.go")
 	replace[filepath.Join(*repo, "pkg/intermediate/zz_verif_hooks.go")] = filepath.Join(*hooks, "intermediate_hooks.go")
 	// virtual shim packages
